@@ -24,9 +24,9 @@ def sh(cmd, cwd=None, env=None, timeout=3600):
     return p.returncode, p.stdout, p.stderr
 
 
-def do_import(pid, n):
-    src = f"/tmp/wt_{pid}/_out"
-    dst = os.path.join(VERIF, "seeded", f"{pid}_{n}")
+def do_import(pid, n, prefix="wt", offset=0):
+    src = f"/tmp/{prefix}_{pid}/_out"
+    dst = os.path.join(VERIF, "seeded", f"{pid}_{int(n) + offset}")
     os.makedirs(dst, exist_ok=True)
     shutil.copy(f"{src}/change{n}.diff", f"{dst}/patch.diff")
     shutil.copy(f"{src}/demo{n}.py", f"{dst}/demo.py")
@@ -87,7 +87,7 @@ def do_eval(d, checks, tier="quick", skip_tests=False):
 
 if __name__ == "__main__":
     if sys.argv[1] == "import":
-        do_import(sys.argv[2], sys.argv[3])
+        do_import(sys.argv[2], sys.argv[3], *(sys.argv[4:5] or ["wt"]), offset=int(sys.argv[5]) if len(sys.argv) > 5 else 0)
     else:
         args = [a for a in sys.argv[3:] if not a.startswith("--")]
         tier = "thorough" if "--thorough" in sys.argv else "quick"
